@@ -301,4 +301,6 @@ func rulesC02(e *Engine, r *Report) {
 	// ---------------------------------------------------------------- R02.9
 	r.Rule("R02.9", "the verdict the sender releases on belongs to the version polled: the cache refill from the receive log never replaces a live entry (the state of the version in flight) by the `logged` record of an older delivery of the same name - the look-up guarding the insert is on the same map and key as the insert - shared with R05.6")
 	e.checkRefillKeepsLive(r, "R02.9")
+	// ---------------------------------------------------------------- R02.10
+	e.shareRule(r, "C17", "R17.4", "R02.10", "a file replaced after it was cached is not released on the old version's verdict: the recovery poll, the retrier and the payload-retry path drop a file whose Store.Sync reports a change, and Sync answers `unchanged` only when modification time (full resolution), size and metadata are all EQUAL")
 }
